@@ -1614,6 +1614,22 @@ def _mk_from_bytes(endian):
     return m
 
 
+@model("std::cmp::impls::<impl std::cmp::PartialOrd for f64>::partial_cmp", "std::cmp::impls::<impl std::cmp::PartialOrd for f32>::partial_cmp")
+def _f64_partial_cmp(I, f, a):
+    """None for NaN operands, else Some(Less | Equal | Greater) decided by ordinary comparisons on the path"""
+    x, y = deref(I, a[0]), deref(I, a[1])
+    ORD = "std::cmp::Ordering"
+    def o(name, d):
+        return some(Agg(ORD, {"Less": 0, "Equal": 1, "Greater": 2}[name], [], d, name))
+    if I.truth(I.binop("Lt", x, y, "f64")):
+        return o("Less", -1)
+    if I.truth(I.binop("Gt", x, y, "f64")):
+        return o("Greater", 1)
+    if I.truth(I.binop("Eq", x, y, "f64")):
+        return o("Equal", 0)
+    return none()
+
+
 @model("std::cmp::Ord::min")
 def _ord_min(I, f, a):
     x, y = a
@@ -2159,6 +2175,9 @@ def _res_from_yeet(I, f, a):
 # ---------------------------------------------------------------------------------------- Option / Result combinators
 def _optv(I, v):
     v = deref1(I, v) if isinstance(v, Ref) else v
+    if not isinstance(v, Agg) and hasattr(v, "discriminant") and hasattr(v, "get_field") and hasattr(v, "inner"):
+        # a lazily decided Option (configuration value): decide it now
+        return some(v.get_field(I, 0)) if v.discriminant(I) == 1 else none()
     if not (isinstance(v, Agg) and v.adt == OPTION):
         raise I.unanalysable("Option combinator on %r" % (v,))
     return v
@@ -2202,15 +2221,29 @@ def _opt_unwrap_or_else(I, f, a):
     return o.fields[0] if is_some(o) else I.call_closure(a[1], [])
 
 
+def default_of(I, ty):
+    """Default::default() of the common value types"""
+    ty = I.subst_ty(str(ty))
+    if ty in INT_TYPES:
+        return False if ty == "bool" else 0
+    if ty == "f64":
+        return 0.0
+    if ty.startswith("std::vec::Vec<u8") or ty == "std::string::String":
+        return Bytes([], ty.endswith("String"))
+    if ty.startswith("std::vec::Vec<"):
+        return VecObj([])
+    if ty.startswith("std::option::Option<"):
+        return none()
+    raise I.unanalysable("unwrap_or_default::<%s>" % ty)
+
+
 @model("std::option::Option::<T>::unwrap_or_default")
 def _opt_unwrap_or_default(I, f, a):
     o = _optv(I, a[0])
     if is_some(o):
         return o.fields[0]
     ty = ((f.get("res") or {}).get("args") or f.get("args") or [""])[0]
-    if ty in INT_TYPES:
-        return False if ty == "bool" else 0
-    raise I.unanalysable("unwrap_or_default::<%s>" % ty)
+    return default_of(I, ty)
 
 
 @model("std::option::Option::<T>::map_or_else")
@@ -2294,11 +2327,7 @@ def _res_unwrap_or_default(I, f, a):
     if r.variant == 0:
         return r.fields[0]
     ty = ((f.get("res") or {}).get("args") or f.get("args") or [""])[0]
-    if ty in INT_TYPES:
-        return False if ty == "bool" else 0
-    if ty == "f64":
-        return 0.0
-    raise I.unanalysable("unwrap_or_default::<%s>" % ty)
+    return default_of(I, ty)
 
 
 @model("std::result::Result::<T, E>::or_else")
